@@ -11,7 +11,7 @@
    the least key (it simply is the least byte string), a nil leader has peer id 0, TotalSize() of
    an empty tree is 0 whatever the counter says, GetAverageRegionSize divides with truncation. *)
 From Coq Require Import String.
-From PDV Require Import lib.Base lib.C07_Key gen.Gen_C07 model.C07_BTreeSpec.
+From PDV Require Import lib.Base lib.C07_Key gen.Gen_C07 model.C07_BTreeSpec model.C07_BTree.
 Local Open Scope Z_scope.
 
 (* ---------------------------------------------------------------------------------------- *)
@@ -577,6 +577,7 @@ Definition ri_monitor (ops : list rop) (obs : list robs) : option string :=
 (* case files                                                                                 *)
 Inductive ccase :=
 | CaseBT (degree : Z) (ops : list bop) (obs : list bobs)
+         (shapes : list (nat * option (node Z)))       (* node structure of the real tree after some operations *)
 | CaseRI (ops : list rop) (obs : list robs).
 
 Definition bt_monitor (ops : list bop) (obs : list bobs) : option string :=
@@ -584,12 +585,20 @@ Definition bt_monitor (ops : list bop) (obs : list bobs) : option string :=
   then None else Some "C07:btree-rank-or-order-broken".
 
 Inductive cdiff :=
-| DiffBT (d : list (nat * option bobs * option bobs))
+| DiffBT (d : list (nat * option bobs * option bobs))       (* L0 against pkg/btree *)
+| DiffBT2 (d : list bt2_diff)                                (* the Gallina B-tree against pkg/btree, shape included *)
 | DiffRI (d : list (nat * option robs * option robs)).
 
 Definition check_case (c : ccase) : option cdiff :=
   match c with
-  | CaseBT _ ops obs => match diff_at bobs_eqb 0 (bt_run [] ops) obs with [] => None | d => Some (DiffBT d) end
+  | CaseBT deg ops obs shapes =>
+      match diff_at bobs_eqb 0 (bt_run [] ops) obs with
+      | [] => match bt2_check 0 (bt2_run (bt_new (Z.to_nat deg)) ops) obs shapes with
+              | [] => None
+              | d => Some (DiffBT2 d)
+              end
+      | d => Some (DiffBT d)
+      end
   | CaseRI ops obs => match diff_at robs_eqb 0 (ri_run ri_empty ops) obs with [] => None | d => Some (DiffRI d) end
   end.
 
@@ -605,7 +614,7 @@ Definition mismatches := mismatches_from 0.
 
 Definition monitor (c : ccase) : option string :=
   match c with
-  | CaseBT _ ops obs => bt_monitor ops obs
+  | CaseBT _ ops obs _ => bt_monitor ops obs
   | CaseRI ops obs => ri_monitor ops obs
   end.
 
